@@ -29,13 +29,19 @@ var _ = bytes.NewReader
 // Readers: ghost_rdContent(r) is the byte string a reader will produce.
 func ghost_rdContent(r io.Reader) string { panic("ghost") }
 
+// Content (C02): ghost_rcontent(r) is what a reader yields from now until EOF, as an abstract token;
+// ghost_wcontent(w) is what a writer has received so far.  (ASSUMED library semantics.)
+func ghost_rcontent(r io.Reader) vcTok { panic("ghost") }
+func ghost_wcontent(w io.Writer) vcTok { panic("ghost") }
+
 //@ ext strings.NewReader(s string) (r *strings.Reader)
-//@   ensures r != nil && vcFresh(r)
+//@   ensures r != nil && vcFresh(r) && ghost_rcontent(r) == vcTokStr(s)
 //@ ext bytes.NewReader(b []byte) (r *bytes.Reader)
-//@   ensures r != nil && vcFresh(r)
+//@   ensures r != nil && vcFresh(r) && ghost_rcontent(r) == vcTokBytes(b)
 //@ ext io.MultiReader(readers []io.Reader) (r io.Reader)
 //@   ensures r != nil
+//@   ensures len(readers) == 3 ==> ghost_rcontent(r) == vcTokCat(ghost_rcontent(readers[0]), vcTokCat(ghost_rcontent(readers[1]), ghost_rcontent(readers[2])))
 //@ ext io.NopCloser(r io.Reader) (rc io.ReadCloser)
-//@   ensures rc != nil
+//@   ensures rc != nil && ghost_rcontent(rc) == ghost_rcontent(r)
 
 //@ ext (github.com/jhillyerd/enmime/v2/internal/textproto.MIMEHeader).Get(h etp.MIMEHeader, key string) (r string)
